@@ -89,6 +89,16 @@ def handle (args : List String) : String :=
       match multiply ⟨n, rx, cx⟩ ⟨n, ry, cy⟩ with
       | none => return "error:assert"
       | some z => return tabStr z
+  | ["pmul", n, a, b] => Id.run do
+      let some n := n.toNat? | return "bad-op"
+      let some a := parsePauli? (2 * n) a | return "bad-op"
+      let some b := parsePauli? (2 * n) b | return "bad-op"
+      return pauliStr (2 * n) (mulB n a b)
+  | ["colsp", n, S] => Id.run do
+      let some n := n.toNat? | return "bad-op"
+      if n = 0 then return "bad-op"
+      let some cols := parseCols? (2 * n) S | return "bad-op"
+      return if (Tab.colSp ⟨n, 0, cols⟩) then "1" else "0"
   | ["a2f", k, M] => Id.run do
       let some k := k.toNat? | return "bad-op"
       if k = 0 || k > 4 then return "bad-op"
